@@ -82,7 +82,19 @@ def gen_cases(tier, seed):
                 else:
                     kw[k] = pool.pop() if pool else rng.choice(POOL)
             tag = 'multi'
-        if kind == 'png' and style >= 0.35 and rng.random() < 0.12:
+        if style >= 0.35 and rng.random() < 0.12:
+            # one colour, written in two notations for two module types (name / short hex / long hex / tuple / other case)
+            names = rng.choice([['black', '#000', '#000000', (0, 0, 0), 'Black'], ['red', '#f00', '#FF0000', (255, 0, 0)],
+                                ['navy', '#000080', (0, 0, 128), 'NAVY'], ['white', '#fff', '#FFFFFF', (255, 255, 255)]])
+            k1, k2 = rng.sample(keys + ['dark', 'light'], 2)
+            kw[k1], kw[k2] = rng.sample(names, 2)
+            tag = 'notation-twins'
+        elif style >= 0.35 and rng.random() < 0.08:
+            # a frame: the quiet zone in the dark colour (two colours in all), with and without a border
+            kw = {'dark': 'navy', 'light': 'white', 'quiet_zone': 'navy'} if rng.random() < 0.5 else {'dark': '#000', 'light': '#fff', 'quiet_zone': 'black', 'separator': '#000'}
+            kw['border'] = rng.choice([0, 0, 1, 3])
+            tag = 'frame'
+        if kind == 'png' and style >= 0.35 and rng.random() < 0.12 and tag not in ('notation-twins', 'frame'):
             # two module types with the same RGB whose alpha values compare equal in Python but mean different things:
             # integer 1 (of 255) and float 1.0 (opaque)
             rgb = rng.choice([(0, 0, 0), (255, 255, 255), (200, 10, 30), (1, 2, 3)])
@@ -102,7 +114,7 @@ def gen_cases(tier, seed):
             tag = 'exact-%d' % want_n
         if rng.random() < 0.6:
             kw['scale'] = rng.choice([1, 2, 3, 4, 8] if kind != 'svg' else [1, 2, 2.5, 0.5, 3.3])
-        if rng.random() < 0.6:
+        if rng.random() < 0.6 and tag != 'frame':
             kw['border'] = rng.choice([0, 1, 2, 4, None])
         if kind == 'svg' and rng.random() < 0.2:
             kw['draw_transparent'] = True
